@@ -859,7 +859,38 @@ class Executor(ExprMixin, StmtMixin, Engine):
                 raise OutOfSubset('break/continue escaped function', node)
 
     def inline_local(self, st, fdef, pos, kw, node):
-        raise OutOfSubset('local function call', node)
+        """Call of a function defined inside the function under proof: its body is executed in
+        place with the caller's variables visible (closure), parameters bound positionally."""
+        if kw or fdef.args.vararg or fdef.args.kwarg or fdef.args.defaults:
+            raise OutOfSubset('local function call with keywords/defaults', node)
+        names = [a.arg for a in fdef.args.args]
+        if len(names) != len(pos):
+            raise OutOfSubset('local function arity', node)
+        if self.inline_depth > 6:
+            raise OutOfSubset('inline depth', node)
+        saved_env = st.env
+        st.env = dict(saved_env)
+        for n, v in zip(names, pos):
+            st.env[n] = v
+        self.inline_depth += 1
+        self.cur_fn_stack.append(self.cur_fn_stack[-1])
+        try:
+            results = list(self.exec_block(fdef.body, st))
+        finally:
+            self.cur_fn_stack.pop()
+            self.inline_depth -= 1
+        for s1, out in results:
+            if s1.dead:
+                continue
+            s1.env = dict(saved_env)
+            if out.kind == 'raise':
+                yield s1, out.value
+            elif out.kind == 'return':
+                yield s1, out.value
+            elif out.kind == 'normal':
+                yield s1, NONE_VAL
+            else:
+                raise OutOfSubset('break/continue escaped local function', node)
 
     def construct(self, st, clsname, pos, kw, node):
         key = self.class_method_key(clsname, '__init__')
